@@ -172,7 +172,7 @@ int verif_close(int fd)
   os_call();
   if (!g.in_child) {
     /* the single assertion that is "no foreign close, no double close" */
-    V_ASSERT("C05/os.close.open_and_library_owned", IS_OPEN(fd) && IS_LIB(fd));
+    V_ASSERT("C05+C10/os.close.open_and_library_owned", IS_OPEN(fd) && IS_LIB(fd));
   }
   if (gc.plan_on && gc.cfg_release_after_stop) {
     /* destroy: nothing is released before the stop sequence has run as far as it
